@@ -64,4 +64,16 @@ CHECKS = {
                 level_note="Trusted: harness oracle; workloads are placed by the plugin itself, so only placements the planner really produces are explored.",
                 technique="reference-model runtime monitor over CalculateRealloc on plugin-produced placements",
                 quick=dict(batches=4, wall=900), thorough=dict(batches=12, wall=3000), assumptions=["whole-core shares = every core's capacity is a multiple of the share base"]),
+    "C07": dict(test="TestC07", level="exploration", seed=107,
+                rule="1..3 generated nodes (section-4.5 generator) x a generated request (bound and memory-only, zero memory = unlimited, sub-piece CPU); real cobalt.Manager + cpumem on embedded etcd: GetNodesDeployCapacity, then per node Alloc(cap) must succeed, Alloc(cap+1) must fail, an unoffered node must refuse Alloc(1), unlimited nodes must accept Alloc(1000), total must be the saturating sum, and for memory-only requests Alloc(k) must lower the capacity by exactly k (state re-installed between probes). Non-trivial = at least one node with finite positive capacity probed; distinct = hash(request, node states)",
+                level_text="Reported capacity is compared with what the real manager's Alloc accepts by probing at cap and cap+1 on every offered node, plus the memory-only decrement law and the saturating total.",
+                level_note="Trusted: harness probes; state is re-installed from the generated description between probes, so probes are independent.",
+                technique="probe-based runtime monitor over the real resource manager (capacity vs Alloc)",
+                quick=dict(batches=4, wall=900), thorough=dict(batches=12, wall=3000), assumptions=["capacities above 4096 are not probed with Alloc(cap)"]),
+    "C08": dict(test="TestC08", level="exploration", seed=108,
+                rule="histories of 5..40 operations (alloc 1..3 instances, rollback-alloc, realloc {grow, shrink, bind, unbind, keep-bind, memory +/-}, rollback-realloc, release) through the real cobalt.Manager on whole-share nodes with/without NUMA (a third start with foreign usage); the harness keeps the live set exactly as the manager returned it. After every step usage (read from the plugin record) must equal initial usage + sum of live workloads in cpu, per-core pieces, memory and per-NUMA memory; after every rollback usage must equal the snapshot taken before the operation. Non-trivial = history containing a rollback or a realloc on a NUMA node; distinct = hash(node, op list)",
+                level_text="Conservation (usage = sum of live workloads, all four dimensions) is asserted after every step of generated histories and exact restoration after every rollback; minimum observation thresholds on conservation checks, NUMA reallocs and rollbacks.",
+                level_note="Trusted: the harness's own summation over the workload resources the manager returned; embedded etcd.",
+                technique="history monitor with an independent conservation oracle over the real resource manager",
+                quick=dict(batches=4, wall=900), thorough=dict(batches=12, wall=3000), assumptions=[]),
 }
